@@ -2,6 +2,7 @@
    a spec that declares itself compatible with another accepts every value of the other. *)
 From PG Require Import Common.Tactics Model.Typing Proofs.TypingBasics Proofs.TypingApply.
 Local Open Scope Z_scope.
+Local Arguments Z.mul : simpl never.
 
 Fixpoint forall2b {A B} (f : A -> B -> bool) (xs : list A) (ys : list B) : bool :=
   match xs, ys with
@@ -169,6 +170,17 @@ Proof.
   intros. exists v'. rewrite apply_eq, pipeline_typed by auto. rewrite H1. simpl. auto.
 Qed.
 
+Lemma isinstance_coerce : forall ts v, isinstance v ts = true -> coerce (Some ts) v = Ok v.
+Proof. intros. simpl. rewrite H. reflexivity. Qed.
+
+Lemma accepts_inst : forall a v v' ts, frozen (mods_of a) = false -> vtype a = Some ts ->
+  isinstance v ts = true -> apply_body false a v = Ok v' -> accepts a v.
+Proof.
+  intros a v v' ts F VT I B. eapply accepts_typed with (v1 := v) (v' := v'); auto.
+  - unfold isinstance in I. destruct (type_of v); congruence.
+  - rewrite VT. apply isinstance_coerce. exact I.
+Qed.
+
 Lemma accepts_none : forall a, frozen (mods_of a) = false -> noneable (mods_of a) = true -> accepts a PNone.
 Proof. intros. exists PNone. rewrite apply_eq. unfold pipeline. rewrite H, H0. reflexivity. Qed.
 
@@ -182,8 +194,6 @@ Proof.
   exists (dflt (mods_of a)). rewrite apply_eq. unfold pipeline. rewrite Fa, E, orb_true_r. reflexivity.
 Qed.
 
-Lemma isinstance_coerce : forall ts v, isinstance v ts = true -> coerce (Some ts) v = Ok v.
-Proof. intros. simpl. rewrite H. reflexivity. Qed.
 
 (* a fixed point of the type check is an instance (a conversion changes the value) *)
 Lemma coerce_fixed_instance : forall ts v, coerce (Some ts) v = Ok v -> isinstance v ts = true.
@@ -191,4 +201,467 @@ Proof.
   intros ts v. simpl. destruct (isinstance v ts); auto.
   unfold convert. destruct (existsb is_float ts); try discriminate.
   destruct v; simpl; try discriminate; intros H; inv H.
+Qed.
+
+(* ------------------------------------------------------------------------------------------ *)
+(** * Soundness, class by class (the receiving spec a is not frozen here) *)
+
+Ltac bsplit :=
+  repeat match goal with
+  | H : _ && _ = true |- _ => apply andb_true_iff in H; destruct H
+  end.
+
+Lemma none_ok_use : forall ma mb, none_ok ma mb = true -> noneable mb = true -> noneable ma = true.
+Proof. unfold none_ok. intros ma mb H N. rewrite N in H. simpl in H. rewrite orb_false_r in H. exact H. Qed.
+
+Lemma in_range_compat : forall lo hi olo ohi x,
+  range_compat lo hi olo ohi = true -> in_range olo ohi x = true -> in_range lo hi x = true.
+Proof.
+  unfold range_compat, in_range. intros lo hi olo ohi x H I. bsplit.
+  destruct lo, olo, hi, ohi; simpl in *; try discriminate; try lia.
+Qed.
+
+Lemma in_range_compat64 : forall lo hi olo ohi x,
+  range_compat lo hi olo ohi = true -> in_range (scale64 olo) (scale64 ohi) x = true ->
+  in_range (scale64 lo) (scale64 hi) x = true.
+Proof.
+  unfold range_compat, in_range, scale64. intros lo hi olo ohi x H I. bsplit.
+  destruct lo, olo, hi, ohi; simpl in *; try discriminate; try lia.
+Qed.
+
+(* leaf classes: same value type, the class-specific check of a follows from that of b *)
+Lemma sound_leaf : forall a b v,
+  frozen (mods_of a) = false -> v <> PMissing ->
+  none_ok (mods_of a) (mods_of b) = true ->
+  vtype a = vtype b ->
+  (forall v1, apply_body false b v1 = Ok v -> v1 = v) ->
+  (apply_body false b v = Ok v -> exists v', apply_body false a v = Ok v') ->
+  conforms (unfreeze b) v -> accepts a v.
+Proof.
+  intros a b v Fa NM NO VT Bsame Bimp C.
+  apply conforms_inv in C; auto using frozen_unfreeze.
+  destruct C as [[E N]|[T [v1 [Co Bo]]]].
+  - subst. apply accepts_none; auto. rewrite noneable_unfreeze in N. eapply none_ok_use; eauto.
+  - rewrite vtype_unfreeze in Co. rewrite body_unfreeze in Bo.
+    pose proof (Bsame _ Bo); subst v1.
+    destruct (Bimp Bo) as [v' Ba].
+    eapply accepts_typed; eauto. rewrite VT. exact Co.
+Qed.
+
+Lemma validate_num_ok : forall lo hi v, validate_num lo hi v = Ok v ->
+  exists x, num_of v = Some x /\ in_range lo hi x = true.
+Proof.
+  unfold validate_num. intros. destruct (num_of v); try discriminate.
+  destruct (in_range lo hi z) eqn:E; try discriminate. eauto.
+Qed.
+
+Lemma sound_obj : forall ca m cb mb v,
+  frozen m = false -> v <> PMissing -> none_ok m mb = true -> is_subclass cb ca = true ->
+  conforms (unfreeze (SObj cb mb)) v -> accepts (SObj ca m) v.
+Proof.
+  intros ca m cb mb v Fa NM NO SUB C.
+  apply conforms_inv in C; auto using frozen_unfreeze.
+  destruct C as [[E N]|[T [v1 [Co Bo]]]].
+  - subst. apply accepts_none; auto. eapply none_ok_use; eauto.
+  - simpl in Co, Bo. inv Bo. apply coerce_fixed_instance in Co.
+    eapply accepts_typed with (v1 := v); eauto; [|reflexivity].
+    apply isinstance_coerce. unfold isinstance in *. destruct (type_of v); try discriminate.
+    simpl in *. rewrite orb_false_r in *. destruct t; simpl in *; try discriminate.
+    eapply is_subclass_trans; eauto.
+Qed.
+
+Lemma sound_any : forall m v, frozen m = false -> noneable m = true -> v <> PMissing -> accepts (SAny m) v.
+Proof.
+  intros m v F N NM. destruct (type_of v) eqn:T.
+  - eapply accepts_typed with (v1 := v); eauto; try congruence; [|reflexivity].
+    apply isinstance_coerce. unfold isinstance. rewrite T. simpl. destruct t; reflexivity.
+  - destruct v; simpl in T; try discriminate; [|congruence]. apply accepts_none; auto.
+Qed.
+
+Lemma coerce_nofloat : forall ts v v1, existsb is_float ts = false -> coerce (Some ts) v = Ok v1 ->
+  v1 = v /\ isinstance v ts = true.
+Proof.
+  intros ts v v1 NF. simpl. destruct (isinstance v ts). { intros H; inv H; auto. }
+  unfold convert. rewrite NF. discriminate.
+Qed.
+
+Lemma mapM_fixed : forall (f : pv -> res pv) l, mapM f l = Ok l -> Forall (fun x => f x = Ok x) l.
+Proof.
+  induction l; simpl; intros H; constructor;
+    destruct (f a) eqn:Fa; simpl in H; try discriminate;
+    destruct (mapM f l) eqn:M; simpl in H; inv H; auto.
+Qed.
+
+Lemma mapM_accepts : forall (g : pv -> res pv) l, Forall (fun x => exists x', g x = Ok x') l ->
+  exists l', mapM g l = Ok l' /\ length l' = length l.
+Proof.
+  induction 1; simpl. { exists []; auto. }
+  destruct H as [x' Hx]. destruct IHForall as [l' [Hl L]].
+  exists (x' :: l'). rewrite Hx, Hl. simpl. auto.
+Qed.
+
+Lemma sound_list : forall ea mn mx m eb omn omx mb v,
+  frozen m = false -> total v = true ->
+  none_ok m mb = true -> negb (mn >? omn) = true -> size_max_ok mx omx = true ->
+  (forall x, total x = true -> conforms eb x -> accepts ea x) ->
+  conforms (unfreeze (SList eb omn omx mb)) v -> accepts (SList ea mn mx m) v.
+Proof.
+  intros ea mn mx m eb omn omx mb v Fa TV NO MN MX IH C.
+  apply conforms_inv in C; auto using frozen_unfreeze, total_not_missing.
+  destruct C as [[E N]|[T [v1 [Co Bo]]]].
+  - subst. apply accepts_none; auto. eapply none_ok_use; eauto.
+  - simpl in Co, Bo. apply coerce_nofloat in Co as [E I]; [|reflexivity]. subst v1.
+    destruct v; try discriminate.
+    destruct (mapM (apply false eb) l) as [l'|] eqn:M; simpl in Bo; [|discriminate].
+    destruct (size_ok omn omx (len l')) eqn:S; inv Bo.
+    apply mapM_fixed in M. simpl in TV. rewrite forallb_forall in TV. rewrite Forall_forall in M.
+    destruct (mapM_accepts (apply false ea) l) as [l' [Ml L]].
+    { apply Forall_forall. intros x Hx. apply IH; auto. apply M; auto. }
+    eapply accepts_inst with (v' := PList l') (ts := [TyList]); auto.
+    cbn [apply_body]. rewrite Ml. simpl.
+    replace (size_ok mn mx (len l')) with true; [reflexivity|].
+    symmetry. unfold size_ok, size_max_ok, len in *. rewrite L. bsplit.
+    destruct mx, omx; simpl in *; try discriminate; lia.
+Qed.
+
+Lemma zipM_fixed_accepts : forall (f g : spec -> pv -> res pv) es oes l,
+  length es = length oes -> length l = length oes ->
+  zipM f oes l = Ok l -> Forall (fun x => total x = true) l ->
+  (forall e oe x, In (e, oe) (combine es oes) -> total x = true -> f oe x = Ok x -> exists x', g e x = Ok x') ->
+  exists l', zipM g es l = Ok l'.
+Proof.
+  induction es as [|e es IHes]; destruct oes as [|oe oes]; destruct l as [|x l]; simpl; intros L1 L2 Z T H;
+    try discriminate; eauto.
+  destruct (f oe x) eqn:Fa; simpl in Z; [|discriminate].
+  destruct (zipM f oes l) eqn:M; simpl in Z; inv Z. inv T.
+  destruct (H e oe x) as [x' Hx]; auto.
+  destruct (IHes oes l) as [l' Hl]; auto; try lia.
+  { intros e0 oe0 x0 Hin. apply H. right. exact Hin. }
+  exists (x' :: l'). rewrite Hx, Hl. reflexivity.
+Qed.
+
+Lemma zipM_fixed_all : forall (f : spec -> pv -> res pv) oes l,
+  length l = length oes -> zipM f oes l = Ok l -> Forall2 (fun oe x => f oe x = Ok x) oes l.
+Proof.
+  induction oes; destruct l; simpl; intros L Z; try discriminate; constructor;
+    destruct (f a p) eqn:Fa; simpl in Z; try discriminate;
+    destruct (zipM f oes l) eqn:M; simpl in Z; inv Z; auto.
+Qed.
+
+Lemma forall2_partner : forall {A B} (R : A -> B -> Prop) xs ys, Forall2 R xs ys ->
+  forall y, In y ys -> exists x, In x xs /\ R x y.
+Proof.
+  induction 1; intros z [].
+  - subst. exists x. split; auto. left; reflexivity.
+  - destruct (IHForall2 _ H1) as [x' [I Rx]]. exists x'. split; auto. right; auto.
+Qed.
+
+Lemma sound_tuple : forall q es mn mx m oes omn omx mb v,
+  frozen m = false -> total v = true ->
+  none_ok m mb = true ->
+  (if fixed_length mn mx then
+     if fixed_length omn omx then Z.eqb (len es) (len oes) && forall2b (compat q) es oes else false
+   else
+     if fixed_length omn omx then
+       negb (mn >? len oes) && match mx with Some h => negb (h <? len oes) | None => true end &&
+       match es with e :: _ => forallb (compat q e) oes | [] => false end
+     else
+       negb (mn >? omn) &&
+       match mx with Some h => match omx with Some oh => negb (h <? oh) | None => false end | None => true end &&
+       match es, oes with e :: _, oe :: _ => compat q e oe | _, _ => false end) = true ->
+  (forall e, In e es -> forall oe, In oe oes -> compat q e oe = true ->
+     forall x, total x = true -> conforms oe x -> accepts e x) ->
+  conforms (unfreeze (STuple oes omn omx mb)) v -> accepts (STuple es mn mx m) v.
+Proof.
+  intros q es mn mx m oes omn omx mb v Fa TV NO CP IH C.
+  apply conforms_inv in C; auto using frozen_unfreeze, total_not_missing.
+  destruct C as [[E N]|[T [v1 [Co Bo]]]].
+  - subst. apply accepts_none; auto. eapply none_ok_use; eauto.
+  - simpl in Co, Bo. apply coerce_nofloat in Co as [E I]; [|reflexivity]. subst v1.
+    destruct v; try discriminate. simpl in TV. rewrite forallb_forall in TV.
+    assert (AT : forall l', apply_body false (STuple es mn mx m) (PTuple l) = Ok l' -> accepts (STuple es mn mx m) (PTuple l)).
+    { intros l' H. eapply accepts_inst with (v' := l') (ts := [TyTuple]); auto. }
+    cbn [apply_body] in *.
+    destruct (fixed_length omn omx) eqn:FO.
+    + (* the sender is fixed-length *)
+      destruct (len l =? len oes) eqn:LL; simpl in Bo; [|discriminate].
+      destruct (zipM (apply false) oes l) as [l'|] eqn:Z; simpl in Bo; inv Bo.
+      assert (L2 : length l = length oes) by (unfold len in LL; lia).
+      destruct (fixed_length mn mx) eqn:FA.
+      * bsplit. assert (L1 : length es = length oes) by (unfold len in *; lia).
+        destruct (zipM_fixed_accepts (apply false) (apply false) es oes l) as [l' Hl]; auto.
+        { apply Forall_forall. auto. }
+        { intros e oe x Hin Tx Fx. apply (IH e) with (oe := oe); auto.
+          - eapply in_combine_l; eauto.
+          - eapply in_combine_r; eauto.
+          - clear - Hin H0. revert oes Hin H0. induction es; destruct oes; simpl; intros; try tauto.
+            bsplit. destruct Hin as [E|Hin]; [inv E; auto|eauto]. }
+        eapply AT. replace (len l =? len es) with true by (unfold len in *; lia). simpl.
+        rewrite Hl. reflexivity.
+      * bsplit. destruct es as [|e es']; [discriminate|].
+        pose proof (zipM_fixed_all _ _ _ L2 Z) as F2.
+        destruct (mapM_accepts (apply false e) l) as [l' [Ml L]].
+        { rewrite forallb_forall in H0. apply Forall_forall. intros x Hx.
+          destruct (forall2_partner _ _ _ F2 _ Hx) as [oe [Ioe Fx]].
+          apply (IH e (or_introl eq_refl) oe); auto. }
+        eapply AT. replace (size_ok mn mx (len l)) with true. simpl. rewrite Ml. reflexivity.
+        symmetry. unfold size_ok, len in *. destruct mx; simpl in *; lia.
+    + (* the sender is variable-length *)
+      destruct (size_ok omn omx (len l)) eqn:S; simpl in Bo; [|discriminate].
+      destruct (fixed_length mn mx) eqn:FA; [discriminate|]. bsplit.
+      destruct es as [|e es']; [discriminate|]. destruct oes as [|oe oes']; [discriminate|].
+      destruct (mapM (apply false oe) l) as [l'|] eqn:M; simpl in Bo; inv Bo.
+      apply mapM_fixed in M. rewrite Forall_forall in M.
+      destruct (mapM_accepts (apply false e) l) as [l' [Ml L]].
+      { apply Forall_forall. intros x Hx. apply (IH e (or_introl eq_refl) oe); auto. left; reflexivity. apply M; auto. }
+      eapply AT. replace (size_ok mn mx (len l)) with true. simpl. rewrite Ml. reflexivity.
+      symmetry. unfold size_ok, len in *. bsplit. destruct mx, omx; simpl in *; try discriminate; lia.
+Qed.
+
+(* ------------------------------------------------------------------------------------------ *)
+(** * Enum *)
+
+Lemma pv_is_none : forall v, v = PNone \/ v <> PNone.
+Proof. destruct v; auto; right; discriminate. Qed.
+
+Lemma issub_refl : forall t, issub t t = true.
+Proof. destruct t; simpl; auto. apply is_subclass_refl. Qed.
+
+Lemma issub_trans : forall t u w, issub t u = true -> issub u w = true -> issub t w = true.
+Proof.
+  destruct t, u, w; simpl; intros; try discriminate; auto.
+  eapply is_subclass_trans; eauto.
+Qed.
+
+Lemma enum_vtype_go_cons : forall cur v r, v <> PNone ->
+  enum_vtype_go cur (v :: r) =
+  match type_of v with
+  | None => None
+  | Some nx => if issub cur nx then enum_vtype_go nx r
+               else if issub nx cur then enum_vtype_go cur r else None
+  end.
+Proof. intros cur v r NN. destruct v; try reflexivity. congruence. Qed.
+
+Lemma enum_vtype_go_sound : forall vs cur t, enum_vtype_go cur vs = Some t ->
+  issub cur t = true /\
+  forall u, In u vs -> u <> PNone -> exists tu, type_of u = Some tu /\ issub tu t = true.
+Proof.
+  induction vs as [|v vs IH]; intros cur t H.
+  - simpl in H. inv H. split. apply issub_refl. intros u [].
+  - destruct (pv_is_none v) as [E|NN].
+    + subst v. simpl in H. destruct (IH _ _ H) as [A B]. split; auto.
+      intros u [E|I] NU; [congruence|auto].
+    + rewrite enum_vtype_go_cons in H by exact NN.
+      destruct (type_of v) as [nx|] eqn:Tv; [|discriminate].
+      destruct (issub cur nx) eqn:S1.
+      * destruct (IH _ _ H) as [A B]. split. eapply issub_trans; eauto.
+        intros u [E|I] NU; [subst u|auto]. exists nx. split; auto.
+      * destruct (issub nx cur) eqn:S2; [|discriminate].
+        destruct (IH _ _ H) as [A B]. split; auto.
+        intros u [E|I] NU; [subst u|auto]. exists nx. split; auto. eapply issub_trans; eauto.
+Qed.
+
+Lemma enum_vtype_sound : forall vs ts, enum_vtype vs = Some ts ->
+  exists t, ts = [t] /\ forall u, In u vs -> u <> PNone -> exists tu, type_of u = Some tu /\ issub tu t = true.
+Proof.
+  induction vs as [|v vs IH]; intros ts H; [simpl in H; discriminate|].
+  destruct (pv_is_none v) as [E|NN].
+  - subst v. simpl in H. destruct (IH _ H) as [t [E B]]. exists t. split; auto.
+    intros u [X|I] NU; [congruence|auto].
+  - assert (EQ : enum_vtype (v :: vs) =
+                 match type_of v with
+                 | None => None
+                 | Some t => match enum_vtype_go t vs with Some t' => Some [t'] | None => None end
+                 end) by (destruct v; try reflexivity; congruence).
+    rewrite EQ in H. destruct (type_of v) as [tv|] eqn:Tv; [|discriminate].
+    destruct (enum_vtype_go tv vs) as [t'|] eqn:G; inv H.
+    destruct (enum_vtype_go_sound _ _ _ G) as [A B]. exists t'. split; auto.
+    intros u [X|I] NU; [subst u; eauto|auto].
+Qed.
+
+(* == relates numbers to numbers and otherwise values of one type *)
+Lemma py_eq_types : forall u v, py_eq u v = true ->
+  (num_of u <> None /\ num_of v <> None) \/ type_of u = type_of v.
+Proof.
+  intros u v H. pose proof (py_eq_shape _ _ H) as S.
+  destruct u; simpl in S; subst; auto;
+    try (left; split; [simpl; congruence | rewrite S; simpl; congruence]).
+  - destruct S as [ys [E _]]. subst. auto.
+  - destruct S as [ys [E _]]. subst. auto.
+  - destruct S as [ys [E _]]. subst. auto.
+Qed.
+
+Lemma py_eq_num_congr : forall u v v' n, num_of v = Some n -> num_of v' = Some n -> py_eq u v = py_eq u v'.
+Proof.
+  intros u v v' n A B. destruct (num_of u) eqn:U.
+  - rewrite (py_eq_num u v z n), (py_eq_num u v' z n); auto.
+  - rewrite (py_eq_num_r u v n), (py_eq_num_r u v' n); auto.
+Qed.
+
+Lemma py_in_trans : forall w v vals, py_in w vals = true -> py_eq w v = true -> py_in v vals = true.
+Proof.
+  unfold py_in. intros w v vals H E. apply existsb_exists in H as [u [I U]].
+  apply existsb_exists. exists u. split; auto. eapply py_eq_trans; eauto.
+Qed.
+
+Lemma numeric_type : forall v, num_of v <> None ->
+  type_of v = Some TyBool \/ type_of v = Some TyInt \/ type_of v = Some TyFloat.
+Proof. destruct v; simpl; intros; try congruence; auto. Qed.
+
+Lemma enum_accepts : forall vals m v, frozen m = false -> type_of v <> None -> py_in v vals = true ->
+  match enum_vtype vals with
+  | None => True
+  | Some ts => isinstance v ts = true \/ (ts = [TyFloat] /\ num_of v <> None)
+  end -> accepts (SEnum vals m) v.
+Proof.
+  intros vals m v F T I C.
+  destruct (enum_vtype vals) as [ts|] eqn:VT.
+  - destruct C as [C|[E N]].
+    + eapply accepts_inst with (v' := v) (ts := ts); auto. cbn [apply_body]. rewrite I. reflexivity.
+    + subst ts. destruct (isinstance v [TyFloat]) eqn:II.
+      * eapply accepts_inst with (v' := v) (ts := [TyFloat]); auto. cbn [apply_body]. rewrite I. reflexivity.
+      * destruct (num_of v) as [n|] eqn:NV; [|congruence].
+        assert (CV : conv_float v = Some (PFlt n)).
+        { destruct v; simpl in NV; try discriminate; inv NV; try reflexivity. }
+        eapply accepts_typed with (v1 := PFlt n) (v' := PFlt n); auto.
+        -- simpl. rewrite VT. simpl. rewrite II. unfold convert. simpl. rewrite CV. reflexivity.
+        -- cbn [apply_body].
+           replace (py_in (PFlt n) vals) with true; [reflexivity|].
+           symmetry. unfold py_in in *. apply existsb_exists in I as [u [Iu E]].
+           apply existsb_exists. exists u. split; auto.
+           rewrite <- E. symmetry. eapply py_eq_num_congr; eauto.
+  - eapply accepts_typed with (v1 := v) (v' := v); auto.
+    + simpl. rewrite VT. reflexivity.
+    + cbn [apply_body]. rewrite I. reflexivity.
+Qed.
+
+Lemma sound_enum_enum : forall q vals m ovals mb v,
+  q_enum_subset q = false ->
+  frozen m = false -> v <> PMissing ->
+  none_ok m mb = true -> forallb (fun w => py_in w vals) ovals = true ->
+  enum_types_ok q vals (SEnum ovals mb) = true ->
+  conforms (unfreeze (SEnum ovals mb)) v -> accepts (SEnum vals m) v.
+Proof.
+  intros q vals m ovals mb v Q Fa NM NO SUB TY C.
+  apply conforms_inv in C; auto using frozen_unfreeze.
+  destruct C as [[E N]|[T [v1 [Co Bo]]]].
+  - subst. apply accepts_none; auto. eapply none_ok_use; eauto.
+  - simpl in Co, Bo. destruct (py_in v1 ovals) eqn:I; inv Bo.
+    (* v is listed (up to ==) by the receiver too *)
+    assert (IV : py_in v vals = true).
+    { unfold py_in in I. apply existsb_exists in I as [w [Iw E]].
+      rewrite forallb_forall in SUB. eapply py_in_trans; eauto. }
+    apply enum_accepts; auto.
+    destruct (enum_vtype vals) as [ts|] eqn:VT; auto.
+    destruct (enum_vtype_sound _ _ VT) as [t [E SND]]. subst ts.
+    unfold py_in in IV. apply existsb_exists in IV as [u [Iu Eu]].
+    assert (UN : u <> PNone).
+    { intros X; subst. pose proof (py_eq_shape _ _ Eu) as S. simpl in S. subst. simpl in T. congruence. }
+    destruct (SND _ Iu UN) as [tu [Tu Su]].
+    destruct (py_eq_types _ _ Eu) as [[Nu Nv]|Same].
+    + (* both numbers *)
+      unfold enum_types_ok in TY. rewrite Q, VT in TY. simpl in TY.
+      assert (W : forall t0, types_within (enum_vtype ovals) [t0] = true -> isinstance v [t0] = true).
+      { intros t0 W. unfold types_within in W. destruct (enum_vtype ovals) as [us|] eqn:OV; [|discriminate].
+        apply coerce_fixed_instance in Co. unfold isinstance in *. destruct (type_of v) as [tv|]; [|discriminate].
+        apply existsb_exists in Co as [u' [Iu' Su']]. rewrite forallb_forall in W. specialize (W _ Iu').
+        simpl in *. rewrite orb_false_r in *. eapply issub_trans; eauto. }
+      destruct (numeric_type _ Nu) as [X|[X|X]]; rewrite X in Tu; inv Tu;
+        destruct t; simpl in Su; try discriminate; auto;
+        try (left; apply W; exact TY);
+        try (left; unfold isinstance; destruct (type_of v); [destruct t; reflexivity|congruence]).
+    + left. unfold isinstance. rewrite <- Same, Tu. simpl. rewrite Su. reflexivity.
+Qed.
+
+(* ------------------------------------------------------------------------------------------ *)
+(** * The theorem *)
+
+Lemma frozen_ok_true : forall q ma mb, q_frozen_recv q = false -> frozen ma = true ->
+  frozen_ok q ma mb = true -> frozen mb = true /\ py_eq (dflt ma) (dflt mb) = true.
+Proof.
+  unfold frozen_ok. intros q ma mb Q F H. rewrite Q, F in H. simpl in H.
+  apply andb_true_iff in H. exact H.
+Qed.
+
+Lemma conforms_frozen : forall b v, frozen (mods_of b) = true -> conforms b v -> v = dflt (mods_of b).
+Proof.
+  intros b v F C. unfold conforms in C. rewrite apply_eq in C. unfold pipeline in C. rewrite F in C.
+  destruct (is_missing v || py_eq (dflt (mods_of b)) v); inv C. auto.
+Qed.
+
+Definition sound_for (q : quirks) (a : spec) : Prop :=
+  forall b, wf a -> wf b -> compat q a b = true ->
+  forall v, total v = true -> conforms b v -> accepts a v.
+
+Lemma sound_dict_none : forall m osc mb v,
+  frozen m = false -> v <> PMissing -> none_ok m mb = true ->
+  conforms (unfreeze (SDict osc mb)) v -> accepts (SDict None m) v.
+Proof.
+  intros m osc mb v Fa NM NO C.
+  apply conforms_inv in C; auto using frozen_unfreeze.
+  destruct C as [[E N]|[T [v1 [Co Bo]]]].
+  - subst. apply accepts_none; auto. eapply none_ok_use; eauto.
+  - simpl in Co. apply coerce_nofloat in Co as [E I]; [|reflexivity]. subst v1.
+    eapply accepts_inst with (v' := v) (ts := [TyDict]); auto.
+Qed.
+
+Theorem compat_sound_seq : forall q, no_quirks q ->
+  forall a, no_union a = true -> no_schema a = true -> sound_for q a.
+Proof.
+  intros q (Q1 & Q2 & Q3 & Q4 & Q5).
+  induction a using spec_ind'; intros NU NS b Wa Wb CP v TV C;
+    rewrite compat_eq in CP; unfold compat1 in CP; cbn [mods_of] in CP;
+    apply andb_true_iff in CP as [FO CP];
+    (destruct (frozen m) eqn:Fa;
+     [ destruct (frozen_ok_true _ _ _ Q2 Fa FO) as [Fb E];
+       eapply sound_frozen_receiver; eauto
+     | pose proof (conforms_unfreeze _ _ Wb TV C) as C';
+       pose proof (total_not_missing _ TV) as NM ]).
+  - (* Bool *)
+    destruct b; try discriminate.
+    eapply sound_leaf with (b := SBool m0); eauto;
+      try (intros v1 B; inv B; reflexivity); try (intros _; eexists; reflexivity).
+  - (* Int *)
+    destruct b; try discriminate. bsplit.
+    eapply sound_leaf with (b := SInt lo0 hi0 m0); eauto.
+    + intros v1 B. symmetry. eapply validate_num_same; eauto.
+    + intros B. cbn [apply_body] in *. destruct (validate_num_ok _ _ _ B) as [x [N I]].
+      exists v. unfold validate_num. rewrite N. erewrite in_range_compat64; eauto.
+  - (* Float *)
+    destruct b; try discriminate. bsplit.
+    eapply sound_leaf with (b := SFloat lo0 hi0 m0); eauto.
+    + intros v1 B. symmetry. eapply validate_num_same; eauto.
+    + intros B. cbn [apply_body] in *. destruct (validate_num_ok _ _ _ B) as [x [N I]].
+      exists v. unfold validate_num. rewrite N. erewrite in_range_compat; eauto.
+  - (* Str *)
+    destruct b; try discriminate.
+    eapply sound_leaf with (b := SStr m0); eauto;
+      try (intros v1 B; inv B; reflexivity); try (intros _; eexists; reflexivity).
+  - (* Enum *)
+    apply orb_true_iff in CP as [SC|CP].
+    + bsplit. rewrite Q3, orb_false_l in H0.
+      rewrite (conforms_frozen _ _ H C).
+      destruct (apply false (SEnum vs m) (dflt (mods_of b))) eqn:A; [|discriminate].
+      eexists; eauto.
+    + destruct b; try discriminate. bsplit. eapply sound_enum_enum; eauto.
+  - (* List *)
+    destruct b; try discriminate. bsplit. rewrite Q1, orb_false_l in H2.
+    simpl in NU, NS.
+    eapply sound_list; eauto.
+    intros x Tx Cx. apply (IHa NU NS b); eauto using wf_list.
+  - (* Tuple *)
+    destruct b; try discriminate. apply andb_true_iff in CP as [NO CP].
+    simpl in NU, NS. rewrite forallb_forall in NU, NS.
+    pose proof (wf_tuple _ _ _ _ Wa) as Wes. pose proof (wf_tuple _ _ _ _ Wb) as Woes.
+    rewrite Forall_forall in *.
+    eapply sound_tuple; eauto.
+    intros e He oe Hoe CPe x Tx Cx. apply (H e He (NU e He) (NS e He) oe); auto.
+  - (* schema-less Dict *)
+    destruct b; try discriminate. bsplit. eapply sound_dict_none; eauto.
+  - simpl in NS. discriminate.
+  - (* Object *)
+    destruct b; try discriminate. bsplit. eapply sound_obj; eauto.
+  - simpl in NU. discriminate.
+  - (* Any *)
+    destruct Wa as [_ N]. eapply sound_any; eauto.
 Qed.
